@@ -144,6 +144,12 @@ func supervise(prop string, args []string) int {
 	cmd.Stderr = io.MultiWriter(os.Stderr, &tailBuf)
 	cmd.Stdin = nil
 	err = cmd.Run()
+	if cmd.Process != nil { // the child's scratch directory, in case it died before removing it
+		base := envOr("QV_SCRATCH", "/var/tmp")
+		if m, _ := filepath.Glob(filepath.Join(base, fmt.Sprintf("qv-%s-*-%d", prop, cmd.Process.Pid))); len(m) == 1 {
+			os.RemoveAll(m[0])
+		}
+	}
 	code := 0
 	if err != nil {
 		code = -1
